@@ -23,6 +23,43 @@ type vC05Gen struct {
 	suffix  int // 0 none, 1 heal, 2 drain
 	sufLeft int
 	phase   int
+	prefix  []vC05Ev // boundary stream: a scripted opening, then random events
+}
+
+// boundary stream: openings built around the comparisons of the anchored code (stale queue entry dequeued while its
+// successor is in flight, queue slot held by a cancelled entry, cancel in flight and re-track, same-type duplicate with
+// another mode, remote then local)
+func (g *vC05Gen) boundary(s *vC05Script) {
+	r := g.r
+	s.NP, s.NCid = 1, 3
+	g.metaCid = -1
+	a, b, c := 0, 1, 2
+	lp := func(cid int, direct bool) *vC05Pin { g.tag++; return &vC05Pin{C: cid, Tag: g.tag, Direct: direct} }
+	tr := func(p *vC05Pin) vC05Ev { return vC05Ev{K: "track", C: p.C, P: p} }
+	switch r.intn(5) {
+	case 0: // stale pin entry of b is dequeued while b's unpin is in flight; then that unpin fails or succeeds
+		s.Q = r.rng(1, 2)
+		g.prefix = []vC05Ev{tr(lp(a, false)), tr(lp(b, r.chance(50))), {K: "untrack", C: b}, {K: "complete", C: a}, {K: "complete", C: b, Fault: r.chance(60)}}
+		s.Daemon = append(s.Daemon, [2]int{b, r.rng(1, 2)}) // b is held by the daemon, so a lost unpin failure shows
+	case 1: // the only queue slot is held by a cancelled entry
+		s.Q = 1
+		g.prefix = []vC05Ev{tr(lp(a, false)), tr(lp(b, false)), {K: "untrack", C: b}, tr(lp(c, r.chance(50))), {K: "complete", C: a}}
+	case 2: // cancel in flight, re-track, complete
+		s.Q = r.rng(1, 2)
+		g.prefix = []vC05Ev{tr(lp(a, r.chance(50))), {K: "untrack", C: a}, tr(lp(a, r.chance(50))), {K: "complete", C: a, Fault: r.chance(30)}, {K: "complete", C: a}}
+	case 3: // same-type duplicate carrying another mode
+		s.Q = 2
+		d := r.chance(50)
+		g.prefix = []vC05Ev{tr(lp(a, d)), tr(lp(a, !d)), {K: "complete", C: a}, {K: "recoverall"}, {K: "complete", C: a}}
+	default: // remote, then local while the unpin is in flight
+		s.Q = 1
+		p := lp(a, false)
+		p.Remote = true
+		g.prefix = []vC05Ev{tr(p), tr(lp(a, r.chance(50))), {K: "complete", C: a, Fault: r.chance(30)}, {K: "complete", C: a}}
+	}
+	if r.chance(50) {
+		s.Daemon = append(s.Daemon, [2]int{r.intn(3), r.rng(1, 2)})
+	}
 }
 
 func vC05NewScript(r *vRand) (*vC05Script, *vC05Gen) {
@@ -42,6 +79,10 @@ func vC05NewScript(r *vRand) (*vC05Script, *vC05Gen) {
 		g.suffix = 1
 	case x < 70:
 		g.suffix = 2
+	}
+	if r.chance(15) {
+		g.boundary(s)
+		return s, g
 	}
 	if r.chance(45) {
 		for c := 0; c < s.NCid; c++ {
@@ -77,6 +118,10 @@ func (g *vC05Gen) pin(c int) vC05Pin {
 // recorded in the case reproduces the run)
 func (g *vC05Gen) next(s *vC05Script, inflight []*vC05Call) *vC05Ev {
 	r := g.r
+	if len(s.Evs) < len(g.prefix) {
+		e := g.prefix[len(s.Evs)]
+		return &e
+	}
 	if g.phase == 0 && len(s.Evs) >= g.steps {
 		g.phase = 1
 		if g.suffix == 1 {
